@@ -435,6 +435,11 @@ def is_len_of(t, fld):
 def is_hi_slice(x):
     """amount_le_bytes[16..] of the decoded InterchainTransfer amount"""
     x = core(x)
+    if x[0] == 'field' and x[1] == '1' and core(x[2])[0] == 'call' and core(x[2])[1].endswith('[u8]>::split_at'):
+        # as_le_slice().split_at(16).1
+        sp = core(x[2])
+        amt = core(sp[2][0])
+        return const_int(core(sp[2][1])) == 16 and amt[0] == 'field' and amt[1] == 'amount' and decode_call(amt[2], 'InterchainTransfer') is not None
     if not (x[0] == 'call' and 'core::ops::RangeFrom<usize>> for [u8]>::index' in x[1]):
         return False
     rng = fields_of(core(x[2][1])) or {}
